@@ -196,6 +196,17 @@ def unsupported_case(case):
         v, w = value(e, a), value(sympy.sympify(r), a)
         if v is not None and (w is None or abs(w - v) > 1e-9 * max(1, abs(v))):
             return {"ok": False, "msg": "unsupported construct in %s was translated to something else: %s" % (e, r), "expected": str(v), "observed": str(w), "sig": "unsupported:changed"}
+    if (e.has(sympy.oo) or e.has(-sympy.oo)) and value(e, ASSIGN[0]) is None:
+        # the library hands sympy's infinity on like any other float; "unchanged" is judged with the infinity replaced by a finite stand-in on both sides
+        W = sympy.Symbol("W_inf")
+        e2, r2 = e.xreplace({sympy.oo: W, -sympy.oo: -W}), sympy.sympify(r).xreplace({sympy.oo: W, -sympy.oo: -W})
+        same = True
+        for a in ASSIGN:
+            v, w = value(e2, {**a, W: 3.7}), value(r2, {**a, W: 3.7})
+            if (v is None) != (w is None) or (v is not None and abs(w - v) > 1e-9 * max(1, abs(v))):
+                same = False
+        if same:
+            return {"ok": True, "nt": True, "out": "same-value"}
     if sympy.srepr(sympy.sympify(r)) != sympy.srepr(e) and value(e, ASSIGN[0]) is None:
         return {"ok": False, "msg": "unsupported construct in %s was not refused and came back as %s" % (e, r), "sig": "unsupported:accepted"}
     return {"ok": True, "nt": True, "out": "same-value"}
@@ -206,7 +217,7 @@ def scan_key(name):
     always alternates str, int, str, ..., str (like types meet like types in a comparison)"""
     runs = []
     for ch in name:
-        d = ch in "0123456789"
+        d = ch.isdecimal()        # the decimal digits (ASCII and other scripts); superscripts / circled digits are not digit groups
         if runs and runs[-1][0] == d:
             runs[-1][1] += ch
         else:
@@ -228,7 +239,10 @@ def keys_case(case):
     syms = [sympy.Symbol(n) for n in names]
     ks = []
     for n, s in zip(names, syms):
-        k1 = natural_key(s)
+        try:
+            k1 = natural_key(s)
+        except Exception as e:  # noqa: BLE001
+            return {"ok": False, "msg": "natural_key(%r) raises %s: %s" % (n, type(e).__name__, e), "sig": "keys:exception"}
         # semantic comparison: drop empty strings, which carry no information
         want = [p for p in scan_key(n) if p != ""]
         got = [p for p in k1 if p != ""]
@@ -250,6 +264,33 @@ def keys_case(case):
         if scan_key(names[i]) != scan_key(names[j]) and not ref_less(names[i], names[j]):
             return {"ok": False, "msg": "sorted by natural_key puts %r before %r" % (names[i], names[j]), "sig": "keys:order"}
     return {"ok": True, "nt": True, "ops": len(names), "out": "keys"}
+
+
+ODD_NAMES = ["c_{1,2}", "left arm", "q:0", "t(0:1)", "x,y", "a b", "theta[3]", "x[1][2]", "p.q", "alpha_1.5", "lambda", "in", "E", "I", "pi", "gamma", "S", "beta'", "x:3", "a:c", "ab(1:3)", "w-1",
+             "1x", "_", "x y z", "u,", ",v", "N", "Q", "oo", "zoo", "re", "im", "x²", "µ", "λ_1", "a/b", "a*b", "a+b", "(x)", "x**2", "2*x", "-x", "x;y", "x=1", "{x}", "x|y", "x\\y", "#1", "$x", "x?"]
+
+
+def symbol_name_case(case):
+    """{'names': [...]}: a symbol is a symbol whatever its name looks like: x_name alone, in a sum, a product, a power and inside cos come back as the SAME symbol
+    (equal expression), one symbol, value-equal"""
+    k = 0
+    for n in case["names"]:
+        sym = sympy.Symbol(n)
+        other = sympy.Symbol("x")
+        for e in (sym, sym + 1, 2 * sym, sym ** 2, sympy.cos(sym) + other, sym * other - sympy.Rational(1, 3)):
+            k += 1
+            try:
+                r = roundtrip(e)
+            except Exception as ex:  # noqa: BLE001
+                return {"ok": False, "msg": "expression %s over the symbol named %r is not translated: %s: %s" % (e, n, type(ex).__name__, str(ex)[:120]), "sig": "names:refused", "ops": k}
+            if not isinstance(r, sympy.Basic) or r.free_symbols != e.free_symbols:
+                return {"ok": False, "msg": "expression over the symbol named %r came back with other symbols: %r" % (n, r), "expected": str(sorted(map(str, e.free_symbols))),
+                        "observed": str(sorted(map(str, getattr(r, "free_symbols", [])))) + " / " + type(r).__name__, "sig": "names:symbols", "ops": k}
+            for v in (0.7, -1.3):
+                a = {sym: v, other: 0.4}
+                if abs(complex(sympy.N(r.subs(a))) - complex(sympy.N(e.subs(a)))) > 1e-9:
+                    return {"ok": False, "msg": "expression %s over the symbol named %r evaluates to another number" % (e, n), "sig": "names:value", "ops": k}
+    return {"ok": True, "nt": True, "ops": k, "out": "names"}
 
 
 def literal_case(case):
@@ -304,7 +345,7 @@ def dialect_history_case(case):
     return {"ok": True, "nt": True, "out": "same"}
 
 
-FUNCS = {"exact_numbers": exact_case, "refusal_history": refusal_history_case, "dialect_history": dialect_history_case, "trees": tree_case, "nary": tree_case, "unsupported": unsupported_case, "natural_keys": keys_case, "natural_keys_literal": literal_case}
+FUNCS = {"symbol_names": symbol_name_case, "exact_numbers": exact_case, "refusal_history": refusal_history_case, "dialect_history": dialect_history_case, "trees": tree_case, "nary": tree_case, "unsupported": unsupported_case, "natural_keys": keys_case, **{"natural_keys_sep_%d" % ord(c): keys_case for c in ". ,:-[]() '{}²٣"}, "natural_keys_literal": literal_case}
 
 
 def depth1(atoms):
@@ -366,7 +407,11 @@ def run(run):
     secs.append(Section("nary", [{"trees": nary[i:i + blk]} for i in range(0, len(nary), blk)], tree_case, horizon=900, chunk=1, desc="n-ary / unevaluated sums, products (with reciprocal factors) and powers, repeated operands"))
     ctx = [lambda u: u, lambda u: ["add", u, "x"], lambda u: ["mul", "2", u], lambda u: ["cos", u], lambda u: ["pow", u, "2"], lambda u: ["div", "1", u], lambda u: ["sub", "y", u], lambda u: ["sqrt", u],
            lambda u: ["pow", "2", u]]
-    uc = [{"tree": c(["u:" + nm, a])} for nm in UNSUPPORTED for a in ("x", "2", ["add", "x", "y"]) for c in ctx]
+    # contexts in which the unsupported node sits inside a SYMBOL-FREE sub-expression next to the imaginary unit (1 + I*u, exp(I*u)/..., x*(2 + I*u)): a constant folder must not swallow it
+    ctx += [lambda u: ["add", "1", ["mul", "I", u]], lambda u: ["mul", "x", ["exp", ["mul", "I", u]]], lambda u: ["add", ["add", "x", "1"], ["mul", "I", u]],
+            lambda u: ["div", ["add", "x", ["mul", "I", u]], ["sub", "y", ["mul", "I", u]]], lambda u: ["mul", ["add", "2", ["mul", "I", u]], "x"], lambda u: ["pow", ["mul", "I", u], "2"],
+            lambda u: ["nmul", "I", u, "x"], lambda u: ["nadd", "I", u], lambda u: ["mul", "F0.5", ["add", u, "I"]]]
+    uc = [{"tree": c(["u:" + nm, a])} for nm in UNSUPPORTED for a in ("x", "2", "1", "1/3", ["add", "x", "y"]) for c in ctx]
     secs.append(Section("unsupported", uc, unsupported_case, horizon=120, desc="unsupported constructs at every position of every depth-<=1 context: refused, never changed"))
     dh = [{"tree": t} for t in [["add", "x", ["mul", "2", "y"]], ["cos", ["add", "x", "1"]], ["pow", "x", "y"], ["div", "x", ["mul", "y", "2"]], ["u:log", "x"], ["add", ["u:log", "x"], "1"],
                                 ["u:Abs", "y"], ["mul", "2", ["u:log", ["add", "x", "2"]]], ["sqrt", ["add", "x", "2"]], ["exp", ["mul", "I", "x"]]]]
@@ -374,6 +419,12 @@ def run(run):
     secs.append(Section("exact_numbers", [{"big": b, "ctx": c} for b in BIG for c in range(10)], exact_case, horizon=120, desc="integers and rationals beyond 2^53 in 10 contexts: the round trip is exact, not float-close"))
     secs.append(Section("refusal_history", [{"rounds": r, "step": st} for r, st in ((600, 1), (2500 if thorough else 1200, 5))], refusal_history_case, horizon=900, chunk=1,
                         desc="600 / 1200 (thorough 2500) refused translations interleaved with supported ones in one process: refusals leave nothing behind"))
+    secs.append(Section("symbol_names", [{"names": ODD_NAMES[i:i + 6]} for i in range(0, len(ODD_NAMES), 6)], symbol_name_case, horizon=300, chunk=1,
+                        desc="%d symbol names with commas, blanks, colons, brackets, operators, names of sympy singletons / keywords: the same symbol comes back" % len(ODD_NAMES)))
+    for sep in ". ,:-[]() '{}²٣":
+        sn = ["".join(p) for k in range(1, 6) for p in itertools.product("a" + sep + "012", repeat=k) if sep in p and any(c in "012" for c in p)]
+        kc_sep = [{"names": sn[i:i + 600]} for i in range(0, len(sn), 600)] + [{"names": sn[i::37]} for i in range(0, 12)]
+        secs.append(Section("natural_keys_sep_%d" % ord(sep), kc_sep, keys_case, horizon=300, chunk=1, desc="all names of length <= 5 over {a, %r, 0, 1, 2} that contain the separator and a digit" % sep))
     alpha = "ab_0129"
     Ln = 5 if thorough else 4
     names = ["".join(p) for k in range(1, Ln + 1) for p in itertools.product(alpha, repeat=k)]
